@@ -146,13 +146,27 @@ def x_libc(o, cx):
                     m = re.match(r"(wipe|rand|kdf|nfc|nfkd)(\d*)$", k)
                     if m and m.group(2) != tab["tag"]:
                         bad = "%s called through table `%s`, expected the table injected last `%s`" % (m.group(1), m.group(2) or "0", tab["tag"] or "0")
+            # the random source and the clock: consulted by polyseed_create only, once each, for 19 bytes
+            rands = [e for e in ev if re.match(r"rand\d*:", e)]
+            times = [e for e in ev if re.match(r"time:", e)]
+            op = case.split(" ", 1)[0]
+            if op == "create":
+                okc = res.startswith("st=0")
+                if len(rands) > 1 or (okc and len(rands) != 1):
+                    bad = "polyseed_create consulted the random source %d times (once expected)" % len(rands)
+                elif rands and rands[0].split(":")[1] != "19":
+                    bad = "polyseed_create asked the random source for %s bytes (19 expected)" % rands[0].split(":")[1]
+                elif len(times) > 1 or (okc and len(times) != 1):
+                    bad = "polyseed_create read the clock %d times (once expected)" % len(times)
+            elif op != "inject" and (rands or times):
+                bad = "%s consulted the %s" % (op, "random source" if rands else "clock")
             n += 1
             if bad:
                 o.direct.append(dict(kind="deps", suite=label, seq=core.enclosing_sequence(lines, i), what=bad,
-                                     impl=rr.c[i][:1500], expected="all calls through the table injected last"))
+                                     impl=rr.c[i][:1500], expected="all calls through the table injected last; random source and clock consulted by polyseed_create only, once each, for 19 bytes"))
                 if len(o.direct) > 20:
                     return
-    o.stats["deps"] = dict(ops=n, predicate="each logged call was made through the table injected last; libc malloc/free/time exactly when the optional entry was NULL")
+    o.stats["deps"] = dict(ops=n, predicate="each logged call was made through the table injected last; libc malloc/free/time exactly when the optional entry was NULL; the random source and the clock are consulted by polyseed_create only, once each, the random source for 19 bytes")
 
 
 # ------------------------------------------------------------------ C07
